@@ -226,12 +226,10 @@ let zoo tier seed : cty list =
   let l2 = List.filter wf (dedup (List.concat_map step core1)) in
   let l2 = if tier = "quick" then List.filteri (fun i _ -> i mod 4 = (seed mod 4)) l2 else l2 in
   let l3 =
-    if tier = "quick" then []
-    else
-      let st = Random.State.make [| seed; 15 |] in
-      let pick = List.filter (fun _ -> Random.State.int st 12 = 0) l2 in
-      List.filter wf (dedup (List.concat_map step pick)) in
-  let l3 = if tier = "quick" then l3 else List.filteri (fun i _ -> i mod 3 = 0) l3 in
+    let st = Random.State.make [| seed; 15 |] in
+    let pick = List.filter (fun _ -> Random.State.int st (if tier = "quick" then 20 else 12) = 0) l2 in
+    List.filter wf (dedup (List.concat_map step pick)) in
+  let l3 = List.filteri (fun i _ -> i mod (if tier = "quick" then 4 else 3) = 0) l3 in
   List.filter wf (dedup (l0 @ l1 @ l2 @ l3))
 
 (* ------------------------------------------------------------------ traits *)
@@ -287,6 +285,7 @@ let uconcepts : uval list =
     ub "floating_point" (fun _ t -> floating_point_c_m t) std_is_floating_point;
     ub "signed_integral" signed_integral_c_m (fun t -> std_is_integral t && std_is_signed t);
     ub "unsigned_integral" unsigned_integral_c_m (fun t -> std_is_integral t && not (std_is_signed t));
+    ub "referenceable" ~stdnm:"" (fun _ t -> referenceable_c_m t) (fun t -> not (std_is_void t));
     ub "builtin_integer" ~stdnm:"" (fun _ t -> is_builtin_integer_m t)
       (fun t -> std_is_standard_signed_integer t || std_is_standard_unsigned_integer t);
     ub "builtin_signed_integer" ~stdnm:"" (fun _ t -> is_builtin_signed_integer_m t) std_is_standard_signed_integer;
@@ -412,6 +411,11 @@ let emit tier cfgs seed =
     if is_complete_object t then
       obl "prop" "alignment_of" key (sp "etl::alignment_of_v<%s> == std::alignment_of_v<%s> && etl::alignment_of<%s>::value == alignof(%s)" r r r r);
     List.iter (fun c -> obl "prop" ("concept " ^ c) key (sp "etl::%s<%s> == std::%s<%s>" c r c r)) prop_concepts_unary;
+    (* the recorded findings, pinned to their exact wrong behaviour (a finding suppresses the comparison with
+       std only; any OTHER behaviour of these facilities still fails here) *)
+    obl "corr" "recorded: is_trivially_copy_constructible" key
+      (sp "etl::is_trivially_copy_constructible_v<%s> == std::is_trivially_default_constructible_v<%s>" r r);
+    obl "prop" "concept boolean_testable" key (sp "etl::boolean_testable<%s> == std::__detail::__boolean_testable<%s>" r r);
     obl "prop" "common_type<T>" key (sp "z::common_type_agrees<%s>" r);
     obl "prop" "invoke_result<F>" key (sp "z::invoke_result_agrees<%s> && etl::is_invocable_v<%s> == std::is_invocable_v<%s> && etl::invocable<%s> == std::invocable<%s>" r r r r r);
     if is_complete_object t && not (std_is_array t) then
@@ -467,7 +471,14 @@ let emit tier cfgs seed =
     obl "prop" "is_invocable" key (sp "etl::is_invocable_v<%s, %s> == std::is_invocable_v<%s, %s>" ra rb ra rb);
     obl "prop" "is_invocable_r" key (sp "etl::is_invocable_r_v<%s, %s> == std::is_invocable_r_v<%s, %s>" ra rb ra rb);
     obl "prop" "invoke_result" key (sp "z::invoke_result_agrees<%s, %s>" ra rb);
-    List.iter (fun c -> obl "prop" ("concept " ^ c) key (sp "etl::%s<%s, %s> == std::%s<%s, %s>" c ra rb c ra rb)) prop_concepts_binary)
+    List.iter (fun c -> obl "prop" ("concept " ^ c) key (sp "etl::%s<%s, %s> == std::%s<%s, %s>" c ra rb c ra rb)) prop_concepts_binary;
+    obl "corr" "recorded: common_reference_with" key
+      (sp "etl::common_reference_with<%s, %s> == (std::is_same_v<%s, %s> && std::convertible_to<%s, %s>)" ra rb ra rb ra ra);
+    (* common_reference_t<T const&, U const&> exists only for identical operands, and must equal
+       common_type_t<T, U>&: both operands are references to the same unqualified object type *)
+    obl "corr" "recorded: common_with" key
+      (sp "etl::common_with<%s, %s> == (std::is_reference_v<%s> && std::is_reference_v<%s> && std::is_same_v<std::remove_reference_t<%s>, std::remove_reference_t<%s>> && std::is_same_v<std::remove_reference_t<%s>, std::decay_t<%s>> && std::common_with<%s, %s>)" ra rb ra rb ra rb ra ra ra rb);
+    obl "prop" "concept weakly_equality_comparable_with" key (sp "etl::weakly_equality_comparable_with<%s, %s> == std::__detail::__weakly_eq_cmp_with<%s, %s>" ra rb ra rb))
     pairs;
   (* ---- smallest_size_t *)
   List.iter (fun s ->
